@@ -69,3 +69,24 @@ func vfH_C19_redact() {
 		vfrt.Assert(RedactBase64(path) == path, "redact/file-paths-stay-visible")
 	}
 }
+
+//vf:assume C19-inline-accepted: a key given as <scheme>:base64,<payload> with the scheme word "data" in any letter case (solver-decided) and a payload of 3 symbolic bytes: whenever the program accepts the value as inline key material (forwarder.ReadFileOrBase64 decodes it; the model's file system is empty, so any other value fails to load), the printed form of the flag (RedactBase64) does not contain the payload
+
+//vf:harness property=C19 nopanic reach=inline-accepted,inline-not-accepted
+func vfH_C19_inline_accepted() {
+	scheme := []byte("data")
+	for i := range scheme {
+		if vfrt.Choice("upper-case-letter", 2) == 1 {
+			scheme[i] -= 'a' - 'A'
+		}
+	}
+	payload := []string{"QUJD", "c2VjcmV0"}[vfrt.Choice("payload", 2)]
+	val := string(scheme) + ":base64," + payload
+	_, err := forwarder.ReadFileOrBase64(val)
+	if err != nil {
+		vfrt.Reach("inline-not-accepted")
+		return
+	}
+	vfrt.Reach("inline-accepted")
+	vfrt.Assert(!strings.Contains(RedactBase64(val), payload), "inline-accepted/value-accepted-as-inline-key-material-is-printed-redacted")
+}
